@@ -451,7 +451,12 @@ impl MerkleTree {
                     (
                         Some(DataHash {
                             index: block.index,
-                            nodes: p.nodes.expect("nodes need to be present"),
+                            nodes: p.nodes.ok_or_else(|| HypercoreError::InvalidOperation {
+                                context: format!(
+                                    "Cannot create a proof for block {} with the given upgrade",
+                                    block.index
+                                ),
+                            })?,
                         }),
                         None,
                     )
@@ -460,7 +465,12 @@ impl MerkleTree {
                         None,
                         Some(DataHash {
                             index: hash.index,
-                            nodes: p.nodes.expect("nodes need to be set"),
+                            nodes: p.nodes.ok_or_else(|| HypercoreError::InvalidOperation {
+                                context: format!(
+                                    "Cannot create a proof for tree node {} with the given upgrade",
+                                    hash.index
+                                ),
+                            })?,
                         }),
                     )
                 } else {
